@@ -52,7 +52,9 @@ ResultClass(op, l, r) ==
 InPlace(op) == op \in AssignOps \cup {"inc", "dec"}
 
 \* value classes of the property's boundary set
-CONSTANT ValClasses      \* subset of {"zero", "one", "mone", "two", "min", "max", "minp1", "maxm1", "pow"}
+CONSTANT ValClasses      \* subset of {"zero", "one", "mone", "two", "min", "max", "minp1", "maxm1", "pow", "nan", "inf", "ninf"}
+FloatOnly == {"nan", "inf", "ninf"}          \* value classes that exist for floating types only
+HasVal(t, v) == v \notin FloatOnly \/ t.f
 IsDiv(op) == op \in {"/", "%", "/=", "%="}
 \* the operation is carried out in this type
 WorkType(op, l, r) == IF op \in AssignOps THEN UAC(l, r) ELSE ResultClass(op, l, r)
@@ -72,11 +74,14 @@ Laws == /\ \A a \in TNames : Promote(Promote(Types[a])) = Promote(Types[a])
         /\ \A a, b \in TNames : \A op \in AssignOps : LET c == ResultClass(op, Types[a], Types[b]) IN c = Invalid \/ c = Types[a]
 
 Cls(c) == IF c = Invalid THEN "invalid" ELSE IF c = Bool THEN "bool" ELSE (IF c.f THEN "f" ELSE IF c.s THEN "i" ELSE "u") \o ToString(c.w)
-BinCells == {[op |-> op, lt |-> a, rt |-> b, lv |-> lv, rv |-> rv, cls |-> Cls(ResultClass(op, Types[a], Types[b])),
+BinCellsAll == {[op |-> op, lt |-> a, rt |-> b, lv |-> lv, rv |-> rv, cls |-> Cls(ResultClass(op, Types[a], Types[b])),
               inplace |-> InPlace(op), trap |-> Traps(op, Types[a], Types[b], lv, rv)] :
                 op \in BinOps, a \in TNames, b \in TNames, lv \in ValClasses, rv \in ValClasses}
-UnCells == {[op |-> op, lt |-> a, rt |-> a, lv |-> lv, rv |-> "zero", cls |-> Cls(ResultClass(op, Types[a], Types[a])),
+UnCellsAll == {[op |-> op, lt |-> a, rt |-> a, lv |-> lv, rv |-> "zero", cls |-> Cls(ResultClass(op, Types[a], Types[a])),
              inplace |-> InPlace(op), trap |-> FALSE] : op \in UnaryOps, a \in TNames, lv \in ValClasses}
+\* NaN and the infinities exist for floating operands only
+BinCells == {c \in BinCellsAll : HasVal(Types[c.lt], c.lv) /\ HasVal(Types[c.rt], c.rv)}
+UnCells == {c \in UnCellsAll : HasVal(Types[c.lt], c.lv)}
 Export == ndJsonSerialize(IOEnv.OUT, SetToSeq(BinCells) \o SetToSeq(UnCells))
 
 VARIABLE dummy
